@@ -39,7 +39,10 @@ where
     }
 
     fn responses(self, frames: Vec<Frame>) -> Result<Self::Response, TypedResponseError> {
-        assert_eq!(self.len(), frames.len());
+        if self.len() != frames.len() {
+            return Err(TypedResponseError::other());
+        }
+
         let mut out = Vec::with_capacity(self.len());
 
         for (command, frame) in self.into_iter().zip(frames) {
@@ -76,9 +79,9 @@ macro_rules! impl_command_list_tuple {
                 let mut frames = frames.into_iter();
 
                 Ok((
-                    self.0.response(frames.next().unwrap())?,
+                    self.0.response(frames.next().ok_or_else(TypedResponseError::other)?)?,
                     $(
-                        self.$further_idx.response(frames.next().unwrap())?,
+                        self.$further_idx.response(frames.next().ok_or_else(TypedResponseError::other)?)?,
                     )*
                 ))
             }
